@@ -45,7 +45,7 @@ def check(rep, tier, seed, replay):
     all_mism = []
     unconfirmed = 0
     cert_tried = cert_ok = 0
-    for name, progs in [("corpus", None)] + list(program_stream(tier, seed, quick_random=3000, thorough_random=30000)):
+    for name, progs in [("corpus", None)] + list(program_stream(tier, seed, quick_random=12000, thorough_random=40000)):
         if name == "corpus":
             lines = core.corpus_lines("C05")
         else:
